@@ -115,4 +115,18 @@ PROPS = {
         'decided': 'the evaluator\'s destructuring of binding patterns (compute_paths_of_destructure, used for let / assign patterns by the REPL, the partial evaluator and the cl22 frontend optimiser): every name is bound to the f/r chain that follows the consensus path of its position in the pattern (least significant bit first), for patterns of any shape',
         'not_covered': ['create_argument_captures / build_argument_captures (function-call argument binding; HashMap- and BodyForm-heavy)', 'substitution, folding and lambda application in shrink_bodyform_visited', 'REPL state', 'agreement REPL vs compiled program as a whole: bounded stand-in only (E3: 10 sessions)'],
     },
+    'C10': {
+        'units': ['guards'],
+        'e3_always': ['scoping'],
+        'e3': ['scoping'],
+        'decided': 'the duplicate-definition guard of the code generator (fail_if_present): an error is returned exactly when the name is already defined in the table it is asked about, for every table and name',
+        'not_covered': ['unbound-identifier detection on every desugaring route, inline-recursion guard (visited_inlines in replace_inline_body), toposort deadlock / duplicate handling: bounded stand-in only (E3: 8 ill-scoped programs with repaired twins); toposort and the inliner are generic / closure / HashSet code outside Verus, and a Kani harness over HashSet does not finish here', 'termination of the compiler on all ill-scoped inputs'],
+    },
+    'C12': {
+        'units': ['cldb', 'clvmleaves'],
+        'e3_always': ['cldb'],
+        'e3': ['cldb', 'choose_path'],
+        'decided': 'what the debugger presents is the value it computed: improve_presentation and humanize (applied to every shown value and to the final result) return the same CLVM value, only spelled differently (R6 for the pointer-sharing shortcut); plus the stepping-evaluator leaves of C06 that every row is produced from (path lookup, truthiness, atom_value)',
+        'not_covered': ['CldbRun::step row / ended / final bookkeeping and that the run ends with the consensus result: bounded stand-in only (E3: enumerated programs x 3 environments, final value, failure iff consensus fails, consecutive rows)', 'truth of each (operator, arguments, value) row w.r.t. the consensus evaluator', 'cldb_hierarchy', 'hex-supplied programs (hex_to_modern_sexp_inner)'],
+    },
 }
